@@ -15,8 +15,11 @@ Open Scope Z_scope.
    reference indices ascend, and no gene occurs twice.  dict_ok = the levels are
    Python dicts (no node twice in a level).  The proof's content: ancestors (and the
    parent's own entry) are still unpatched when consulted, because the parents are
-   processed by decreasing depth, the root last. *)
+   processed by decreasing depth, the root last.  The statement is claimed for valid taxonomies
+   only (validate t = true, what TaxonomyTree enforces): on an invalid tree the code's
+   parents() lookup raises KeyError where the model's `ancestors` returns []. *)
 Theorem c08_used_equals_spec : forall t tb refg qg minm c p,
+  validate t = true ->
   dict_ok t ->
   create_cache tb refg qg (Some t) minm = MOk c ->
   In p (all_parents t) -> (2 <= length (children t p))%nat ->
@@ -25,7 +28,7 @@ Theorem c08_used_equals_spec : forall t tb refg qg minm c p,
     names_at refg ri = Some names /\ names_at qg qi = Some names /\
     NoDup names /\ ascending ri /\
     forall g, In g names <-> In g (spec_markers tb qg minm t p).
-Proof. exact used_equals_spec. Qed.
+Proof. intros t tb refg qg minm c p _. exact (used_equals_spec t tb refg qg minm c p). Qed.
 Print Assumptions c08_used_equals_spec.
 
 (* k_min is the smallest number of (present) ancestor lists that reaches the minimum:
